@@ -155,10 +155,10 @@ func init() {
 
 func init() {
 	register(&Spec{ID: "C20", Run: RunC20, Shards: 8, Env: []string{"GOMAXPROCS=1"},
-		Rule:        "cases are (i) growth series: 30 adversarial document families (a large container followed by many small siblings as array elements / object values / two levels down, failing siblings, escapes at every nesting level, many short escaped strings or keys, deep arrays/objects/mixtures up to depth 9,600, flat and long tokens, long runs of \\u escapes and surrogate pairs in values and keys) x 8 entry points (ReadValue, reused ValueReader, Valid and SkipValue with nil/reused buffer, SkipValueFast, Handle*Values with a declining and with a re-entrant decoding handler), each measured with runtime.MemStats.TotalAlloc at n, 2n, 4n; and (ii) histories: 9 large documents x 8 small/failing documents x 9 reused-reader/buffer entry points (incl. mixed entry points on one reader), one large call followed by 300 (quick) / 3,000 (thorough) small calls, each measured separately; GOMAXPROCS=1 and GC off during each measurement make the figures reproducible; every series and history is a distinct non-trivial case",
+		Rule:        "cases are (i) growth series: 57 adversarial document families (incl. the 24-shape hint-propagation product grandparent x parent x elder sibling x child) (a large container followed by many small siblings as array elements / object values / two levels down, failing siblings, escapes at every nesting level, many short escaped strings or keys, deep arrays/objects/mixtures up to depth 9,600, flat and long tokens, long runs of \\u escapes and surrogate pairs in values and keys) x 8 entry points (ReadValue, reused ValueReader, Valid and SkipValue with nil/reused buffer, SkipValueFast, Handle*Values with a declining and with a re-entrant decoding handler), each measured with runtime.MemStats.TotalAlloc at n, 2n, 4n; and (ii) histories: 10 large documents x 11 small/failing documents x 9 reused-reader/buffer entry points (incl. mixed entry points on one reader), one large call followed by 300 (quick) / 3,000 (thorough) small calls, each measured separately; GOMAXPROCS=1 and GC off during each measurement make the figures reproducible; every series and history is a distinct non-trivial case",
 		Assumptions: append([]string{"'a fixed constant multiple' is judged with explicit thresholds recorded in the evidence samples: growth ratio < 2.5 over a 4x size step for series allocating >= 256 KB, <= 16 KB per input byte + 1 MB absolutely, and <= 64 bytes per input byte + 8 KB for every small call after the third one following a large document"}, commonAssumptions...),
 		MinEvals:    50000,
-		MinCounters: map[string]int64{"growth_series_measured": 200, "growth_series_judged": 20, "histories_measured": 600}})
+		MinCounters: map[string]int64{"growth_series_measured": 400, "growth_series_judged": 20, "histories_measured": 900}})
 }
 
 func init() {
